@@ -137,6 +137,70 @@ func runC18(c *Ctx) {
 				"NestedComments says that block comments do not nest in "+strings.TrimSpace(bad)+": a block comment inside a block comment ends the outer one early, and what is left of it is lexed as code")
 		}
 	}
+	// R18.22 the delimiters are those of the language. Facts about well-known languages, kept here like those of R18.18: the
+	// line-comment and block-comment delimiters of the C, shell, SQL/Haskell and markup families. A language that is not in
+	// the list is not decided; a delimiter that differs from the language's own (a block comment in a language that has
+	// none, say) makes ordinary code open a comment that swallows what follows.
+	{
+		cfam := [3]string{"//", "/*", "*/"}
+		hash := [3]string{"#", "", ""}
+		facts := map[string][3]string{
+			"C": cfam, "CSharp": cfam, "Dart": cfam, "Go": cfam, "Java": cfam, "JavaScript": cfam, "Kotlin": cfam, "ObjectiveC": cfam, "Swift": cfam, "TypeScript": cfam,
+			"Shell": hash, "Python": hash, "R": hash, "Yaml": hash, "NinjaBuild": hash, "Elixir": hash,
+			"Ruby": {"#", "=begin", "=end"}, "Haskell": {"--", "{-", "-}"}, "HTML": {"", "<!--", "-->"}, "Matlab": {"%", "%{", "%}"},
+			"Fortran": {"!", "", ""}, "AppleScript": {"--", "(*", "*)"},
+		}
+		nL, bad, und := 0, "", ""
+		for _, l := range langs {
+			f, ok := facts[l.Name()]
+			if !ok {
+				continue
+			}
+			var got [3]string
+			okAll := true
+			for i, n := range []string{"SingleLineCommentStart", "MultilineCommentStart", "MultilineCommentEnd"} {
+				res, err := ce.Eval(tfn[n], []constant.Value{l.Val()})
+				if err != nil || len(res) != 1 || res[0].Kind() != constant.String {
+					okAll = false
+					break
+				}
+				got[i] = constant.StringVal(res[0])
+			}
+			if !okAll {
+				und = l.Name()
+				continue
+			}
+			nL++
+			if got != f && bad == "" {
+				bad = fmt.Sprintf("%s: line comment %q, block comment %q ... %q (the language has %q, %q ... %q)", l.Name(), got[0], got[1], got[2], f[0], f[1], f[2])
+			}
+		}
+		if und != "" {
+			c.R.Info("R18.22", "comment delimiters of "+und, langPkg, "not decided: the table functions could not be evaluated for this language")
+		} else if nL > 0 {
+			c.R.Check(bad == "", "R18.22", "the comment delimiters of well-known languages are those of the language", langPkg, fmt.Sprintf("%d languages evaluated", nL),
+				"the table gives "+bad+": text that is code in that language is lexed as a comment (or a comment as code)")
+		}
+	}
+	// R18.23 delimiters are matched exactly: the lexer (package commentparser) never folds case. "=END" does not close a Ruby
+	// block comment and "@rem" handling, if wanted, belongs in the table of one language, not in the matcher of all of them.
+	{
+		bad := ""
+		nF := 0
+		for _, fn := range pkgFuncs(p, cpPkg) {
+			nF++
+			for _, call := range core.CallsIn(fn) {
+				switch n := core.StaticCalleeName(call.Common()); n {
+				case "unicode.ToLower", "unicode.ToUpper", "unicode.ToTitle", "unicode.SimpleFold", "strings.EqualFold", "strings.ToLower", "strings.ToUpper", "bytes.EqualFold", "bytes.ToLower", "bytes.ToUpper":
+					if bad == "" {
+						bad = core.ShortFn(fn) + " calls " + n + " at " + p.Pos(call.Pos())
+					}
+				}
+			}
+		}
+		c.R.Check(bad == "", "R18.23", "the lexer compares runes exactly (no case folding)", cpPkg, fmt.Sprintf("%d functions of the lexer package: no call of a case-folding function", nF),
+			bad+": a delimiter is recognised in another spelling than the language's - text that is code (\"x =BEGIN_MARK\") opens a comment, or a comment is closed early (\"=End\")")
+	}
 	defStyle := ""
 	image := map[string][]string{}
 	styleOf := map[string]string{}
